@@ -33,6 +33,15 @@ CHECKS = {
              '(d+k <= end of record in progress), no premature accept, exact reassembly. Plus TLS handshake messages '
              'cut over records at every set of <= 2-3 positions.',
         design='§5 C04'),
+    'C10': dict(
+        technique='complete enumeration of code spaces through the real decoders and list containers',
+        text='All 2^8 / 2^16 codes of all 16 code-point factories, alone and as only / first / second element of '
+             'each of the 10 list containers (known -> the unique member, unknown/GREASE -> preserved bit-for-bit '
+             'with RFC 8701 classification, or InvalidValue); the 3-byte SSL 2.0 cipher-kind space (complete in the '
+             'thorough tier); 27 IntEnum-typed wire fields substituted in place over their whole space; all members, '
+             'case spellings and prefix pairs of 28 string-coded enumerations and 5 SSH name-lists; static no-alias '
+             'clause over every enumeration. Exact for the 1- and 2-byte spaces.',
+        design='§5 C10'),
     'C12': dict(
         technique='explicit-state BFS over edit sequences on real vector objects against a list model',
         text='Every concrete ArrayBase subclass of the library (plus four tight-bound toy subclasses that run the '
